@@ -56,6 +56,10 @@ Theorem C20_gw_daily : forall (grw gw ampl s : R) series zeit,
   gw_day Soilfile grw gw ampl s series zeit = Some grw.
 Proof. exact gw_daily_lemma. Qed.
 
+(* the sinusoid is evaluated at the CONFIGURED phase (any integer, also negative or beyond a year) *)
+Theorem C20_gw_phase : forall (p : Z) (tag : R), sin_arg tag (gw_phase_of_config p) = sin_arg tag p.
+Proof. exact gw_phase_lemma. Qed.
+
 (* non-vacuity: a three-record series with gaps is ascending; day 25 interpolates between 10 and 40 *)
 Example C20_nonvacuous :
   ascending [(10%Z, 11); (40%Z, 9); (100%Z, 12)] /\
@@ -75,3 +79,4 @@ Print Assumptions C20_gw_empty_error.
 Print Assumptions C20_gw_no_error.
 Print Assumptions C20_gw_sin.
 Print Assumptions C20_gw_daily.
+Print Assumptions C20_gw_phase.
